@@ -3,6 +3,10 @@
 Decided (F-ALIAS): writes that reach caller-owned buffers/containers from the public constructors,
 internal objects handed to another owner, cached/internal objects returned without a copy."""
 
+import ast
+
+from ..astutil import iter_stmts, norm, where
+from ..loader import dotted
 from ..rules.common import ALIAS_ENTRIES, dataflow, emit
 
 RULES = {
@@ -40,4 +44,136 @@ def check(run):
     # exports handed to data conversions: the conversion writes into a copy, and the matplotlib collections are copied on every return
     from .c15 import _copies
     _copies(run, P)
+    _export_buffers(run, P)
 
+
+
+# ---------------------------------------------------------------------------------------------------------------- exported datasets own their arrays
+FRESH_CALLS = {"array", "copy", "deepcopy", "astype", "zeros", "ones", "full", "empty", "arange", "column_stack", "concatenate", "stack", "hstack", "vstack", "where", "unique",
+               "deg2rad", "rad2deg", "sqrt", "sum", "mean", "cumsum", "repeat", "tile", "sort", "argsort", "abs", "zeros_like", "ones_like", "full_like", "linspace", "isin", "nonzero",
+               "flatnonzero", "round", "clip", "mod", "arctan2", "arcsin", "sin", "cos"}
+VIEW_CALLS = {"asarray", "asanyarray", "reshape", "ravel", "squeeze", "transpose", "swapaxes", "atleast_1d", "atleast_2d", "expand_dims", "view", "DataArray", "Variable", "broadcast_to"}
+
+
+def _export_buffers(run, P):
+    """Grid.to_xarray / encode_as hand the caller a dataset he may edit in place: every array put into it must be FRESH (the result of arithmetic, np.array, .copy(),
+    astype, fancy indexing ...), never a view of an array that lives in Grid._ds.  The encoders receive the grid's dataset or its variables as parameters; a value is
+    `shared` when it reaches the output through names/attributes/.values/.data/basic views only.  A dataset-level Dataset.copy() without deep=True keeps every array shared."""
+    from ..astutil import LocalDefs
+    R = "ALIAS/export-shares-buffer"
+    encoders = ["uxarray/io/_ugrid.py:_encode_ugrid", "uxarray/io/_scrip.py:_encode_scrip", "uxarray/io/_exodus.py:_encode_exodus"]
+    for key in encoders:
+        f = P.func(key)
+        params = set(f.params())
+        defs = LocalDefs(f.node)
+
+        def state(e, depth=0, seen=()):
+            """'fresh' | 'shared:<param>' | 'unknown' for an array/dataset valued expression"""
+            if depth > 8:
+                return "unknown"
+            if isinstance(e, ast.Constant) or isinstance(e, (ast.List, ast.Tuple, ast.ListComp, ast.BinOp, ast.UnaryOp, ast.Compare, ast.BoolOp)):
+                return "fresh"
+            if isinstance(e, ast.Name):
+                ds_ = [v for v, _i, _l in defs.defs.get(e.id, [])]
+                if e.id in params and not ds_:
+                    return f"shared:{e.id}"
+                if e.id in seen:
+                    return "fresh"   # cyclic rebinding ds = ds.copy(): judged by the non-cyclic definitions
+                sts = [state(v, depth + 1, seen + (e.id,)) for v in ds_]
+                if e.id in params:
+                    sts.append(f"shared:{e.id}")
+                # flow-insensitive: the value is fresh only if the LAST binding before use is; approximate by "every rebinding chain ends fresh":
+                # a name rebound from itself (ds = ds.copy(deep=True); ds = ds.drop_vars(..)) is fresh when one of the self-rebindings makes it fresh
+                if any(x == "fresh" for x in sts) and all(x == "fresh" or x.startswith("shared") for x in sts) and any(_self_rebind_fresh(v, e.id) for v in ds_):
+                    return "fresh"
+                for x in sts:
+                    if x.startswith("shared"):
+                        return x
+                return "unknown" if "unknown" in sts or not sts else "fresh"
+            if isinstance(e, ast.Attribute):
+                if e.attr in ("values", "data", "T", "real", "attrs", "variables"):
+                    return state(e.value, depth + 1, seen)
+                return state(e.value, depth + 1, seen)
+            if isinstance(e, ast.Subscript):
+                base = state(e.value, depth + 1, seen)
+                if not base.startswith("shared"):
+                    return base
+                sl = e.slice
+                # fancy indexing copies; a string key selects a variable of a dataset (same buffer); slices are views
+                if isinstance(sl, ast.Constant) and isinstance(sl.value, str):
+                    return base
+                if isinstance(sl, (ast.Slice,)) or (isinstance(sl, ast.Tuple) and all(isinstance(x, (ast.Slice, ast.Constant)) for x in sl.elts)) or (isinstance(sl, ast.Constant)):
+                    return base
+                return "fresh"
+            if isinstance(e, ast.Call):
+                nm = (dotted(e.func) or [""])[-1]
+                recv = e.func.value if isinstance(e.func, ast.Attribute) and not (isinstance(e.func.value, ast.Name) and e.func.value.id in ("np", "numpy", "xr", "xarray", "copy")) else None
+                if nm == "copy" and recv is not None:
+                    deep = next((k.value for k in e.keywords if k.arg == "deep"), e.args[0] if e.args else None)
+                    inner = state(recv, depth + 1, seen)
+                    # ndarray.copy() is always a new buffer; Dataset/DataArray.copy() defaults... to deep=True for DataArray/Dataset? -> xarray: deep=True default for
+                    # DataArray.copy and Dataset.copy is deep=False.  The receiver kind is not known here, so only an explicit deep=True counts for dataset-like receivers
+                    if isinstance(deep, ast.Constant) and deep.value is True:
+                        return "fresh"
+                    if inner.startswith("shared") and not _is_dataset_like(recv, params):
+                        return "fresh"
+                    return inner
+                if nm in ("deepcopy",):
+                    return "fresh"
+                if nm == "Dataset":
+                    # a new container; its variables are judged one by one where they are stored
+                    return "fresh" if not e.args and not any(k.arg in ("data_vars", "coords") for k in e.keywords) else "unknown"
+                if nm in VIEW_CALLS or nm in ("drop_vars", "rename", "rename_vars", "rename_dims", "set_coords", "reset_coords", "assign", "assign_coords", "assign_attrs", "swap_dims", "isel"):
+                    src = recv if recv is not None else next((k.value for k in e.keywords if k.arg == "data"), e.args[0] if e.args else None)
+                    if nm == "isel":
+                        return "fresh" if src is None else "unknown"
+                    return state(src, depth + 1, seen) if src is not None else "unknown"
+                if nm in FRESH_CALLS:
+                    return "fresh"
+                tgt = P.resolve_expr(f.module, e.func, f)
+                from ..loader import FuncInfo
+                if isinstance(tgt, FuncInfo):
+                    return "fresh" if depth < 8 else "unknown"      # package helpers of the encoders compute new arrays (checked by reading: grid_center_lat_lon, _pad...)
+                return "unknown"
+            return "unknown"
+
+        def _self_rebind_fresh(v, name):
+            return isinstance(v, ast.Call) and isinstance(v.func, ast.Attribute) and v.func.attr == "copy" and isinstance(v.func.value, ast.Name) and v.func.value.id == name \
+                and any(k.arg == "deep" and isinstance(k.value, ast.Constant) and k.value.value is True for k in v.keywords)
+
+        def _is_dataset_like(e, params_):
+            """the receiver is the dataset parameter itself (ds.copy()), not one array of it"""
+            return isinstance(e, ast.Name)
+        n_out = 0
+        # (a) the returned dataset as a whole
+        for r in [x for x in ast.walk(f.node) if isinstance(x, ast.Return) and x.value is not None]:
+            st_ = state(r.value)
+            c = f"{f.key}:returned-dataset"
+            n_out += 1
+            if st_.startswith("shared"):
+                run.violation(R, c, where(f, r), f"the exported dataset is (a shallow copy of) the {st_[7:]} it was given: its variables share their buffers with Grid._ds, so an in-place edit of the export "
+                              "(out['node_lon'].values[0] = ...) changes what the grid reports; Dataset.copy(deep=True) is needed")
+            elif st_ == "unknown":
+                run.incomplete(R, c, where(f, r), f"origin of the returned dataset {norm(r.value)[:40]} not understood")
+            else:
+                run.holds(R, c, where(f, r), "the returned dataset is a new container / a deep copy")
+        # (b) every variable stored into the output
+        outs = {norm(r.value) for r in ast.walk(f.node) if isinstance(r, ast.Return) and r.value is not None}
+        for st in iter_stmts(f.node.body):
+            if isinstance(st, ast.Assign) and len(st.targets) == 1 and isinstance(st.targets[0], ast.Subscript) and norm(st.targets[0].value) in outs:
+                v = st.value
+                data = v
+                if isinstance(v, ast.Call) and (dotted(v.func) or [""])[-1] in ("DataArray", "Variable"):
+                    data = next((k.value for k in v.keywords if k.arg == "data"), v.args[0] if v.args else None)
+                if data is None:
+                    continue
+                n_out += 1
+                stt = state(data)
+                c = f"{f.key}:out[{norm(st.targets[0].slice)[:30]}]"
+                if stt.startswith("shared"):
+                    run.violation(R, c, where(f, st), f"{norm(st.targets[0])[:50]} is built on {norm(data)[:40]}, the array the grid itself holds ({stt[7:]}): editing the export in place changes the grid")
+                elif stt == "unknown":
+                    run.incomplete(R, c, where(f, st), f"origin of {norm(data)[:50]} not understood")
+                else:
+                    run.holds(R, c, where(f, st), "a new array")
+        run.floor(f"{R}@{f.name}", n_out, 1)
